@@ -217,6 +217,8 @@ def run_sched(case):
                 w.plabel.get(cur) if cur is not None and not isinstance(cur, tuple) else (None if cur is None else '?'),
                 tuple(sorted((c, v) for c, v in getattr(elem, 'deficit', {}).items())) if case['kind'] == 'DRR' else None)
     s.out = OutTap(w, 's', s, Recorder(w, 'sink'), post=counters)
+    if case.get('no_out'):
+        s.out = None          # nothing attached downstream: transmitted packets are simply gone
     start_injector(w, InTap(w, 's', s, post=counters), [tuple(x) for x in case.get('workload', [])])
     if case.get('shadow'):
         sh = dict(case)
@@ -246,6 +248,11 @@ def run_sched(case):
             return orig()
         mon.dist = hooked
     w.run(max_steps=40000)
+    if case.get('no_out'):
+        try:
+            w.rec('FIN', counters(s, None))
+        except Exception as e:  # noqa
+            w.rec('FIN', ('raised', repr(e)))
     r = Rig()
     r.w, r.s, r.mon, r.f2c, r.case = w, s, mon, f2c, case
     return r
